@@ -3,6 +3,7 @@ package rules
 import (
 	"fmt"
 	"go/token"
+	"go/types"
 	"strings"
 
 	"golang.org/x/tools/go/ssa"
@@ -13,7 +14,7 @@ import (
 func init() { register("C12", checkC12) }
 
 // runeOf maps the abstract alphabet to concrete runes for deciding comparisons with constants.
-var c12Runes = map[byte]int64{'q': '"', 'b': '\\', 'o': 'x', 'a': '@', 'p': '(', 'n': 'n', 'e': 0, 's': ' ', 'd': '.'}
+var c12Runes = map[byte]int64{'q': '"', 'b': '\\', 'o': 'x', 'a': '@', 'p': '(', 'n': 'n', 'e': 0, 's': ' ', 'd': '.', 'c': ')'}
 
 // simulateReader abstractly runs a scanner function whose only input is a sequence of s.input.read() results.
 // word is over c12Runes keys; reads past the end return eof. boolFields gives the value of boolean receiver fields.
@@ -40,6 +41,14 @@ func simulateReader(fn *ssa.Function, word string, boolFields map[string]bool, l
 		if k, ok := core.ConstInt(v); ok {
 			return k, true
 		}
+		// integer values computed along the path (recorded by OnInstr in execution order)
+		if in, ok := v.(ssa.Instruction); ok {
+			for i := len(s.Effects) - 1; i >= 0; i-- {
+				if s.Effects[i].Kind == "VAL" && s.Effects[i].Instr == in {
+					return s.Effects[i].Data.(int64), true
+				}
+			}
+		}
 		if isRead(v) {
 			for _, e := range s.Effects {
 				if e.Kind == "READ" && e.Instr == v.(ssa.Instruction) {
@@ -59,6 +68,17 @@ func simulateReader(fn *ssa.Function, word string, boolFields map[string]bool, l
 				return 0, true // eof is rune(0) in this scanner
 			}
 			return c12Runes[word[idx]], true
+		}
+		if bo, ok := v.(*ssa.BinOp); ok && (bo.Op == token.ADD || bo.Op == token.SUB) {
+			l, ok1 := runeVal(s, bo.X, depth+1)
+			rr, ok2 := runeVal(s, bo.Y, depth+1)
+			if ok1 && ok2 {
+				if bo.Op == token.ADD {
+					return l + rr, true
+				}
+				return l - rr, true
+			}
+			return 0, false
 		}
 		if phi, ok := v.(*ssa.Phi); ok {
 			// the incoming edge of the phi's block on this path: the block visited just before its latest visit
@@ -119,8 +139,35 @@ func simulateReader(fn *ssa.Function, word string, boolFields map[string]bool, l
 			}
 			return core.Unk
 		},
+		OnPhi: func(s *core.PathState, phi *ssa.Phi, edge int) *core.Effect {
+			if b, ok := phi.Type().Underlying().(*types.Basic); !ok || b.Kind() != types.Int {
+				return nil
+			}
+			if val, ok := runeVal(s, phi.Edges[edge], 0); ok {
+				return &core.Effect{Kind: "VAL", Instr: phi, Data: val}
+			}
+			return nil
+		},
 		OnInstr: func(s *core.PathState, in ssa.Instruction) {
 			_ = lastBlocks
+			// track plain integer arithmetic (a parenthesis depth counter): phis take the value of the edge just taken
+			switch x := in.(type) {
+			case *ssa.BinOp:
+				if b, ok := x.Type().Underlying().(*types.Basic); !ok || b.Kind() != types.Int {
+					return
+				}
+				if x.Op == token.ADD || x.Op == token.SUB {
+					l, ok1 := runeVal(s, x.X, 0)
+					rr, ok2 := runeVal(s, x.Y, 0)
+					if ok1 && ok2 {
+						val := l + rr
+						if x.Op == token.SUB {
+							val = l - rr
+						}
+						s.Effects = append(s.Effects, core.Effect{Kind: "VAL", Instr: in, Data: val})
+					}
+				}
+			}
 		},
 		OnCall: func(s *core.PathState, c ssa.CallInstruction) []core.CallOutcome {
 			call, ok := c.(*ssa.Call)
@@ -135,6 +182,29 @@ func simulateReader(fn *ssa.Function, word string, boolFields map[string]bool, l
 				name = call.Call.Method.Name()
 			}
 			switch name {
+			case "readTextLiteral":
+				// a nested reader: run it on the rest of the input and account for the characters it consumes
+				if f != nil && f != fn {
+					n := 0
+					for _, e := range s.Effects {
+						if e.Kind == "READ" {
+							n++
+						}
+					}
+					rest := ""
+					if n < len(word) {
+						rest = word[n:]
+					}
+					sub := simulateReader(f, rest, boolFields, loopBound)
+					if sub.paths != 1 {
+						return nil
+					}
+					var effs []core.Effect
+					for i := 0; i < sub.reads; i++ {
+						effs = append(effs, core.Effect{Kind: "READ", Instr: nil, Data: n + i})
+					}
+					return []core.CallOutcome{{Effects: effs}}
+				}
 			case "read":
 				n := 0
 				for _, e := range s.Effects {
@@ -224,6 +294,70 @@ func checkC12(p *core.Program, r *core.Report) {
 	r.Count("literal_words_simulated", nWords)
 	r.Check(firstBad == "", "R1", "xscanner.readTextLiteral/stops-at-closing-quote", p.Pos(rtl.Pos()), fmt.Sprintf("%d quoted literals: the scanner stops exactly at the closing quote", nWords),
 		"the template scanner mis-judges where a string literal ends: "+firstBad+" — the expression is cut in the wrong place and the template is returned verbatim or mis-evaluated")
+	// scanExpression: the end of an expression is the first closing parenthesis at depth 0 outside text literals
+	if se := p.Method("excellent", "xscanner", "scanExpression"); se == nil || se.Blocks == nil {
+		r.Errorf("scanner anchor scanExpression not found")
+	} else {
+		refReads := func(w string) int {
+			depth := 1
+			i := 0
+			for i < len(w) {
+				ch := w[i]
+				i++
+				switch ch {
+				case 'q':
+					esc := false
+					for i < len(w) {
+						c2 := w[i]
+						i++
+						if c2 == 'q' && !esc {
+							break
+						} else if c2 == 'b' && !esc {
+							esc = true
+						} else {
+							esc = false
+						}
+					}
+					if i >= len(w) && (len(w) == 0 || w[len(w)-1] != 'q') {
+						// ran into the end inside the literal: the literal reader saw eof (one more read)
+						return len(w) + 2
+					}
+				case 'p':
+					depth++
+				case 'c':
+					depth--
+					if depth == 0 {
+						return i
+					}
+				}
+			}
+			return len(w) + 1
+		}
+		nExpr, badExpr := 0, ""
+		var genE func(prefix string, k int)
+		genE = func(prefix string, k int) {
+			w := prefix + "coo"
+			want := refReads(w)
+			if want <= len(w) { // only inputs on which the reference terminates inside the word
+				tr := simulateReader(se, w, nil, len(w)+3)
+				nExpr++
+				if (tr.paths != 1 || tr.reads != want) && (badExpr == "" || len(prefix) < len(badExpr)) {
+					badExpr = fmt.Sprintf("on the expression body %q (q=quote b=backslash o=other p=( c=) ) the scanner consumes %d characters, the expression ends after %d (paths %d)", w, tr.reads, want, tr.paths)
+				}
+			}
+			if k == 0 {
+				return
+			}
+			for _, c := range "qbopc" {
+				genE(prefix+string(c), k-1)
+			}
+		}
+		genE("", 4)
+		r.Count("expression_bodies_simulated", nExpr)
+		r.Require("expression_bodies_simulated", nExpr, 300)
+		r.Check(badExpr == "", "R1", "xscanner.scanExpression/ends-where-the-parser-ends", p.Pos(se.Pos()), fmt.Sprintf("%d expression bodies: parentheses inside text literals are not counted, the expression ends at its own closing parenthesis", nExpr),
+			"the template scanner and the expression grammar disagree on where an expression ends: "+badExpr)
+	}
 	// lexer rule
 	lexStringRule(p, r, "R1", "Excellent3.g4", "TEXT")
 
@@ -272,6 +406,15 @@ func checkC12(p *core.Program, r *core.Report) {
 		}
 		key := fmt.Sprintf("xscanner.scanIdentifier/return#%d", nRet)
 		r.Check(!folded, "R3", key+"/text-unmodified", p.Pos(ret.Pos()), "returns the scanned text", "the text returned by scanIdentifier is a case-folded copy of what was scanned: literal text such as an e-mail address or a @Mention changes case")
+		if kind == 0 { // BODY: the '@' that introduced the name was consumed and must be given back
+			keepsAt := false
+			for v := range core.BackSlice(ret.Results[1], func(c *ssa.Call) bool { return true }) {
+				if sc, ok := core.ConstString(v); ok && strings.HasPrefix(sc, "@") {
+					keepsAt = true
+				}
+			}
+			r.Check(keepsAt, "R3", key+"/body-keeps-at", p.Pos(ret.Pos()), "a name that is not an allowed top level is returned as '@' + name", "scanIdentifier returns a disallowed name as body text without the '@' it consumed: bob@nyaruka.com becomes bobnyaruka.com")
+		}
 		if kind == 1 { // IDENTIFIER
 			gated := false
 			for _, ce := range core.ControllingConds(ret.Block()) {
